@@ -149,12 +149,13 @@ def evaluate(ctx, p, res, base, replay, truth_ir, via):
         ctx.event("targets_compared")
 
 
-def one(ctx, cfg, rich, wild, via, tmproot):
+def one(ctx, cfg, rich, wild, via, tmproot, with_return=False):
     root = tempfile.mkdtemp(prefix="p", dir=tmproot)
     try:
-        p = make_project(ctx.rng, root, cfg["truth"], cfg["pre"], method=cfg["method"], rich=rich, kinds=cfg["kinds"], wild=wild)
+        p = make_project(ctx.rng, root, cfg["truth"], cfg["pre"], method=cfg["method"], rich=rich, kinds=cfg["kinds"], wild=wild, with_return=with_return)
+        wild = wild or with_return  # return entries: judged by the differential oracle only
         truth_ir, problem = parse_target(p.truth, p.files[p.truth], p.names[p.truth])
-        base = {"op": OP, "truth": p.truth, "method": p.method, "n_kinds": len(cfg["kinds"]), "rich": rich, "wild": wild, "via": via,
+        base = {"op": OP, "truth": p.truth, "method": p.method, "n_kinds": len(cfg["kinds"]), "rich": rich, "wild": wild, "via": via, "with_return": with_return,
                 "pre_states": sorted(set(cfg["pre"].values())), "truth_func_before": p.features.get(p.truth + "_func_before", False)}
         replay = {"cfg": {k: (list(v) if isinstance(v, tuple) else v) for k, v in cfg.items()}, "rich": rich, "wild": wild, "via": via,
                   "files": {os.path.basename(f): (open(f).read() if os.path.exists(f) else None) for f in p.files.values()}}
@@ -197,6 +198,11 @@ def run(ctx):
                     ctx.feature("pre=" + s)
                 ctx.feature("via=" + via)
                 one(ctx, cfg, rich, wild, via, tmproot)
+                if len(cfg["kinds"]) == 3 and (ci + rep) % 2 == 0:
+                    # the same configuration with a truth that has a return entry
+                    ctx.case(sig + (rep, "with_return"), nontrivial=True)
+                    ctx.feature("with_return")
+                    one(ctx, cfg, rich, False, "api", tmproot, with_return=True)
     finally:
         shutil.rmtree(tmproot, ignore_errors=True)
     ctx.note("distinct_configurations_this_shard", len(seen))
